@@ -18,12 +18,25 @@ def pat(i):
 
 
 # ------------------------------------------------------------------ parsing
+def expand_q(toks):
+    """q<n>/<tok> = Buffer.ReadOnce of n bytes whose reader first performs <tok> on the same buffer:
+    the inner op, then the Write of the delivered bytes (two trace lines)"""
+    out = []
+    for t in toks:
+        if t[:1] == "q" and "/" in t:
+            n, inner = t[1:].split("/", 1)
+            out += [inner, "o" + n]
+        else:
+            out.append(t)
+    return out
+
+
 def parse_case(case):
     """-> (kind 'S'|'B', [op]) ; op = (k, arg...) with payload bytes materialised."""
     t = case.split()
     kind = "S" if t[0] in ("c13S", "c13So") else "B"
     ops, written = [], 0
-    for tok in t[1:]:
+    for tok in expand_q(t[1:]):
         k, a = tok[0], tok[1:]
         if k in "wo":     # o = Buffer.ReadOnce from a reader delivering the payload: must behave as Write
             n = int(a)
@@ -74,7 +87,7 @@ def compare(case, model, impl):
     ml, il = split_trace(model), split_trace(impl)
     for k, (a, b) in enumerate(zip(ml, il)):
         if a != b:
-            return "op #%d (%s): model '%s' vs implementation '%s'" % (k, case.split()[1 + k], a[:160], b[:160])
+            return "op #%d (%s): model '%s' vs implementation '%s'" % (k, expand_q(case.split()[1:])[k], a[:160], b[:160])
     return "trace lengths differ: model %d ops, implementation %d ops" % (len(ml), len(il))
 
 
@@ -92,7 +105,7 @@ def monitor(case, impl):
     cur = 0
     base = 0
     for k, op in enumerate(ops):
-        tok = case.split()[1 + k]
+        tok = expand_q(case.split()[1:])[k]
         where = "op #%d (%s)" % (k, tok)
         if k >= len(lines):
             return ("trace", "%s: no observation printed" % where)
@@ -188,7 +201,7 @@ STATS = collections.Counter()
 def _stats(case, model):
     """which branches of the model the generated cases reach (written to the evidence)"""
     kind = "S" if case.startswith("c13S") else "B"
-    toks = case.split()[1:]
+    toks = expand_q(case.split()[1:])
     prev = dict(l=0, c=0, p=0)
     for tok, line in zip(toks, split_trace(model)):
         o = parse_line(kind, line)
@@ -224,7 +237,7 @@ def _stats(case, model):
 def nontrivial(case, model):
     """a read that returns data after a seek or a compaction, in a sequence of >= 3 ops"""
     _stats(case, model)
-    t = case.split()[1:]
+    t = expand_q(case.split()[1:])
     if len(t) < 3:
         return False
     seen = False
@@ -290,7 +303,18 @@ def gen_stream_random(rng, count):
 def via_readonce(rng, toks):
     """about a third of the writes of a random Buffer case go through Buffer.ReadOnce (token o<n>): the
     second entry point into Write must behave exactly as Write"""
-    return [("o" + t[1:]) if t[0] == "w" and rng.below(3) == 0 else t for t in toks]
+    out = []
+    for t in toks:
+        if t[0] == "w" and rng.below(3) == 0:
+            if rng.below(4) == 0:
+                # re-entrant reader: it performs one op on the same Buffer before delivering its bytes
+                inner = rng.choice(["w3", "w40", "n1", "n50", "r3", "t", "z", "g70", "s0:0", "s1:-1", "o2"])
+                out.append("q%s/%s" % (t[1:], inner))
+            else:
+                out.append("o" + t[1:])
+        else:
+            out.append(t)
+    return out
 
 
 B_ALPHA = ["w0", "w1", "w3", "w40", "o1", "o40", "r0", "r1", "r3", "n1", "n3", "n50", "s0:0", "s0:2", "s1:-1", "s1:1", "s2:0", "s2:-2",
